@@ -248,7 +248,7 @@ var patShapes = [][]int{{}, {0}, {1}, {0, 0}, {0, 1}, {1, 1, 1}, {0, 1, 0}, {0, 
 func genFindCase(r *Rng, ver string, kind string) (toks, bool) {
 	// text over a small alphabet so that borders, periods and overlapping occurrences abound
 	alpha := r.Pick([]int{2, 2, 3})
-	sym := func() int { return r.Intn(alpha) + r.Pick([]int{0, 0, 3}) % (10 - alpha + 1) }
+	sym := func() int { return r.Intn(alpha) + r.Pick([]int{0, 0, 3})%(10-alpha+1) }
 	_ = sym
 	base := r.Pick([]int{0, 0, 3, 7})
 	L := r.Pick([]int{0, 1, 5, 12, 30, 99, 100, 101, 160, 230})
@@ -500,6 +500,33 @@ func genC15(tier string, r *Rng, emit func(Case)) {
 		t.i(fn)
 		t.i(cnt)
 		emit(Case{Ver: ver, Op: "Find", Args: t})
+	}
+	// v3: asking for n <= 0 matches consults nothing, on every kind of sequence (endless, a bounded view of an
+	// endless Number, a finite Number, a window with a start)
+	for i := 0; i < n/3+12; i++ {
+		raw := make([]int, r.Pick([]int{1, 5, 99, 100, 101, 250}))
+		for k := range raw {
+			raw[k] = 1 + r.Intn(9)
+		}
+		var rep []int
+		if r.Intn(3) != 0 {
+			rep = []int{1 + r.Intn(5), 1 + r.Intn(5)}
+		}
+		pat := []int{raw[r.Intn(len(raw))]}
+		if r.Bool() {
+			pat = append(pat, 1+r.Intn(9))
+		}
+		var t toks
+		t.s("G")
+		t.ints(raw)
+		t.ints(rep)
+		t.i(1)
+		t.i(r.Pick([]int{-1, -1, 0, 1, 100, 200}))
+		t.i(r.Pick([]int{-1, 1, 10, 150, 700}))
+		t.ints(pat)
+		t.i(1)
+		t.i(r.Pick([]int{0, -1, MinInt}))
+		emit(Case{Ver: "v3", Op: "Find", Args: t})
 	}
 	// finite sequences: every entry point terminates (compared with the specification as in C09)
 	for i := 0; i < n; i++ {
